@@ -494,6 +494,11 @@ func RunWorker[C any](w World[C]) {
 			nsamples++
 		}
 		em.emit(l)
+		if d := os.Getenv("VERIF_DUMP_LOG"); d != "" {
+			// diagnostics for the determinism self-test: the API-level log of every run, one file per run
+			_ = os.MkdirAll(d, 0o755)
+			_ = os.WriteFile(filepath.Join(d, fmt.Sprintf("run%d.log", i)), []byte(strings.Join(out.APILog, "\n")+"\n"), 0o644)
+		}
 		if mode == "det" || out.Violation == nil || out.Infra != "" {
 			continue
 		}
